@@ -6,35 +6,14 @@ open Driver AslModel
 
 namespace Driver.C15
 
-def sortPairs (l : List (List UInt8 × List UInt8)) : List (List UInt8 × List UInt8) :=
-  (l.toArray.qsort (fun a b => (hex a.1) < (hex b.1))).toList
+open AslModel.Query in
+/-- `Url::parseQuery(Url::params(d))` for the dictionary built from the given assignments -/
+def queryRt (l : List (List UInt8 × List UInt8)) : List (List UInt8 × List UInt8) :=
+  parseQuery (params (ofPairs l))
 
-/-- leftmost split on a single separator byte, as `String::split(sep)` for a 1-byte `sep` -/
-def splitByte (sep : UInt8) (s : List UInt8) : List (List UInt8) :=
-  let r := s.foldr (fun c (acc : List UInt8 × List (List UInt8)) =>
-      if c == sep then ([], acc.1 :: acc.2) else (c :: acc.1, acc.2)) ([], [])
-  r.1 :: r.2
-
-def indexOfByte (c : UInt8) (s : List UInt8) : Option Nat :=
-  let i := s.takeWhile (· != c) |>.length
-  if i < s.length then some i else none
-
-def dicSet (d : List (List UInt8 × List UInt8)) (k v : List UInt8) :=
-  (d.filter (·.1 != k)) ++ [(k, v)]
-
-/-- `Url::parseQuery(Url::params(d))` -/
-def queryRt (d : List (List UInt8 × List UInt8)) : List (List UInt8 × List UInt8) :=
-  let enc := d.foldl (fun acc kv => dicSet acc (Codec.urlEncode kv.1 true) (Codec.urlEncode kv.2 true)) []
-  let enc := sortPairs enc
-  let joined := List.intercalate [38] (enc.map fun kv => kv.1 ++ [61] ++ kv.2)
-  let q := joined.map fun c => if c == 43 then 32 else c
-  let ps := splitByte 38 q
-  let dic := ps.foldl (fun acc p =>
-    match indexOfByte 61 p with
-    | some j => if j > 0 then dicSet acc (p.take j) (p.drop (j + 1)) else acc
-    | none => acc) []
-  let out := dic.foldl (fun acc kv => dicSet acc (Codec.urlDecode kv.1) (Codec.urlDecode kv.2)) []
-  sortPairs out
+def showDic (d : List (List UInt8 × List UInt8)) : String :=
+  let s := " ".intercalate (d.map fun kv => hex kv.1 ++ ":" ++ hex kv.2)
+  if s.isEmpty then "{}" else s
 
 def parsePair (s : String) : Option (List UInt8 × List UInt8) :=
   match s.splitOn ":" with
@@ -64,8 +43,13 @@ def step (_ : Unit) (ts : List String) : Unit × String :=
     | ["urlrt", c, h] => match unhex h with
       | some d => lenHex (Codec.urlDecode (Codec.urlEncode d (c == "1"))) | none => "bad-op"
     | "queryrt" :: ps => match ps.mapM parsePair with
-      | some d => " ".intercalate ((queryRt d).map fun kv => hex kv.1 ++ ":" ++ hex kv.2) |> fun s => if s.isEmpty then "{}" else s
+      | some d => showDic (queryRt d)
       | none => "bad-op"
+    | "params" :: ps => match ps.mapM parsePair with
+      | some d => lenHex (AslModel.Query.params (AslModel.Query.ofPairs d))
+      | none => "bad-op"
+    | ["pquery", h] => match unhex h with
+      | some s => showDic (AslModel.Query.parseQuery s) | none => "bad-op"
     | ["sha1", h] => match unhex h with
       | some d => hex (Sha1.Impl.hash d) | none => "bad-op"
     | "sha1s" :: h :: cuts => match unhex h with
